@@ -18,6 +18,8 @@ echo "== checks on /repo with the change applied"
 cd /repo && git diff --quiet || { echo "/repo is dirty, abort"; exit 3; }
 git -C /repo apply $DST/patch.diff || { echo "PATCH DOES NOT APPLY TO /repo"; exit 2; }
 cd /verif
+# evidence/ is rewritten by every run: keep the clean-tree record aside and put it back afterwards
+EVBAK=$(mktemp -d /root/work/evbak.XXXXXX); cp -a /verif/evidence/. $EVBAK/
 : > $DST/check_output.txt
 for c in $CHECKS; do
   timeout 1500 ./check.sh $c quick > /tmp/seed_eval.$$ 2>&1; rc=$?
@@ -28,4 +30,5 @@ for c in $CHECKS; do
 done
 rm -f /tmp/seed_eval.$$
 git -C /repo checkout -- .
+cp -a $EVBAK/. /verif/evidence/; rm -rf $EVBAK
 git -C /repo status --short | head -3
